@@ -42,8 +42,9 @@ def _lerp(a, b, *, t, dtype, out=None):
     with np.errstate(invalid="ignore"):
         diff_b_a = np.subtract(b, a)
     # asanyarray is a stop-gap until gh-13105
-    np.add(a, diff_b_a * t, out=out)
-    np.subtract(b, diff_b_a * (1 - t), out=out, where=t >= 0.5)
+    # (casting="unsafe": `out` has the dtype the caller asked for, which may be an integer one, as np.quantile(..., dtype) would truncate)
+    np.add(a, diff_b_a * t, out=out, casting="unsafe")
+    np.subtract(b, diff_b_a * (1 - t), out=out, where=t >= 0.5, casting="unsafe")
     return out
 
 
@@ -249,7 +250,8 @@ def mean(group_idx, array, *, axis=-1, size=None, fill_value=None, dtype=None):
         fill_value = 0
     out = sum(group_idx, array, axis=axis, size=size, dtype=dtype, fill_value=fill_value)
     with np.errstate(invalid="ignore", divide="ignore"):
-        out /= nanlen(group_idx, array, size=size, axis=axis, fill_value=0)
+        # (not in place: `out` has the requested dtype, and a true division cannot be stored into an integer one)
+        out = (out / nanlen(group_idx, array, size=size, axis=axis, fill_value=0)).astype(out.dtype, copy=False)
     return out
 
 
@@ -258,7 +260,8 @@ def nanmean(group_idx, array, *, axis=-1, size=None, fill_value=None, dtype=None
         fill_value = 0
     out = nansum(group_idx, array, size=size, axis=axis, dtype=dtype, fill_value=fill_value)
     with np.errstate(invalid="ignore", divide="ignore"):
-        out /= nanlen(group_idx, array, size=size, axis=axis, fill_value=0)
+        # (not in place: `out` has the requested dtype, and a true division cannot be stored into an integer one)
+        out = (out / nanlen(group_idx, array, size=size, axis=axis, fill_value=0)).astype(out.dtype, copy=False)
     return out
 
 
